@@ -119,10 +119,12 @@ func vStagedTransform(id, fnName string, loopIdx, n int, q uint64, run func(in, 
 	m := vStageLemma(out, src, q, id)
 	total = VerifNative_MatMulMod(m, total, q)
 	vLemma(vAllLE(out, docBound), id+"-documented-output-range")
-	for j := 0; j < n; j++ {
+	for j := 0; j < n; j++ { // one lemma per row (concrete matrices)
+		row := true
 		for i := 0; i < n; i++ {
-			vLemma(total[j][i] == def[j][i], id+"-composed-stage-matrices-equal-definition")
+			row = row && total[j][i] == def[j][i]
 		}
+		vLemma(row, id+"-composed-stage-matrices-equal-definition")
 	}
 	vUnstub("MRedLazy")
 	vCover(id + "-reached")
@@ -237,7 +239,7 @@ func VerifSetup_CIModuli(n int, tier int) []uint64 {
 			res = append(res, q)
 		}
 	}
-	if len(res) > 2 && tier == 0 {
+	if len(res) > 2 && (tier == 0 || n >= 64) {
 		res = []uint64{res[0], res[len(res)-1]}
 	}
 	return res
@@ -247,7 +249,7 @@ func VerifH_C01_NTTStagesConjugateInvariant() {
 	vConfig("backend", "int")
 	sizes := []int{8, 16, 32}
 	if vTier() > 0 {
-		sizes = []int{8, 16, 32, 64, 128}
+		sizes = []int{8, 16, 32, 64}
 	}
 	for _, n := range sizes {
 		for _, q := range VerifSetup_CIModuli(n, vTier()) {
